@@ -28,7 +28,7 @@ ENTRY = dict(
                    "deleted resets with no placeholder or marker left; the placeholder labelled _k receives joint[k] in every partition, and when every cut id is an index into `bases` the ids are exactly 0..n-1 and bases[k] is the basis of a placeholder labelled _k (so coefficient and circuit use the same map of the same basis); "
                    "refusal theorems for the type mismatches, num_samples < 1 / NaN / -inf, a missing or non-numeric label suffix and "
                    "one-qubit placeholders in an unseparated circuit. The model is run inside Coq on every input the implementation ran "
-                   "on (about 280 generated calls per quick run) and compared circuit by circuit, instruction by instruction, register "
+                   "on (about 240 generated calls per quick run) and compared circuit by circuit, instruction by instruction, register "
                    "layout exactly, coefficient types exactly, coefficient values exactly where binary64 arithmetic is exact and within "
                    "1e-12*kappa otherwise.",
         level_note=STD_NOTE + "No axioms. The weights dictionary (generate_qpd_weights: property C04) and the commuting groups "
@@ -45,8 +45,10 @@ ENTRY = dict(
             "_get_bases_by_partition, _get_bases; tied to the source by the C05 correspondence and by regenerated facts (order of the "
             "per-circuit steps, order of the three passes, the sorted(..., reverse=True) call, the coefficient formula, the projection "
             "expression, the dummy index [0], the register names, ValueError site counts)",
-            "it reuses Model/Decompose.v (C14), Model/Measurement.v (C11), Model/ResetPasses.v (C12) and the types of Model/Weights.v (C04); "
-            "their own correspondences tie those to the source",
+            "it reuses Model/Decompose.v (C14), Model/Measurement.v (C11), Model/ResetPasses.v (C12); their own correspondences tie those "
+            "to the source. The weight/num_samples types are local copies of those of Model/Weights.v (C04) so that the correspondence cone "
+            "does not depend on the regenerated Facts.v; Proofs/ExperimentsP.v section I gives the conversion (of_wdict, of_num) and the "
+            "equalities with Weights.qsum/qprod/cart/jointp for the C01 composition",
             "oracle inputs: the weights dictionary of this call in dict order; ObservableCollection(...).groups per partition (or the "
             "exception it raised); QPDBasis objects interned by QPDBasis.__eq__ with maps and coefficients (Fraction of the floats)",
             "exact rational arithmetic; the sign is the sign of the exact product (binary64 underflow of np.prod is not modelled); "
